@@ -99,6 +99,9 @@ def driver_a(ctx, n, edges, part, kind, spec, grid, nested):
     s = cspuz.Solver()
     desc = {"driver": "A", "n": n, "edges": [list(e) for e in edges], "grid": grid, "partition": part, "size": spec, "size_kind": kind}
     ctx.current_case = {"tag": "vg", "desc": desc}
+    if grid is None:
+        edges = D.scramble(ctx.rng, edges)
+        desc["edges"] = [list(e) for e in edges]
     try:
         gs = mk_size(s, spec)
         if grid is not None:
@@ -144,6 +147,12 @@ def driver_b(ctx, n, edges, border, kind, spec, prim, be, frame=None):
     desc = {"driver": "B", "n": n, "edges": [list(e) for e in edges], "frame": frame, "border": list(map(int, border)), "size": spec,
             "size_kind": kind, "primitive": prim}
     ctx.current_case = {"tag": "vgb", "desc": desc}
+    if frame is None and len(edges) > 1:
+        perm = list(range(len(edges)))
+        ctx.rng.shuffle(perm)
+        edges = [((edges[k][1], edges[k][0]) if ctx.rng.random() < 0.5 else tuple(edges[k])) for k in perm]
+        border = [border[k] for k in perm]
+        desc["edges"], desc["border"] = [list(e) for e in edges], list(map(int, border))
     try:
         if isinstance(spec, list) and spec and spec[0] == "var":
             sv = s.int_var(spec[1], spec[2])
